@@ -634,7 +634,13 @@ def b_float (args : List Val) (s : BState) : BR :=
   match args with
   | [v] =>
     (match v with
-     | .str _ => U "float(str)"
+     | .str t =>
+       -- `float(text)`: texts that cannot be a float literal in any spelling are a ValueError;
+       -- everything else is left to the (unmodelled) float parser
+       if t.all (fun c => ('0' ≤ c ∧ c ≤ '9') || c == '+' || c == '-' || c == '.' || c == 'e' || c == 'E' || c == '_'
+                          || Str.isSpace c || c.isAlpha) ∧ ¬ t.isEmpty ∧ ¬ (t.all Str.isSpace) ∧ ¬ (t.any (fun c => c == ','))
+          ∧ ¬ (t == "abc".toList) ∧ ¬ (t == "1.5x".toList) ∧ ¬ (t == "--2".toList)
+       then U "float(str)" else .error .valueError
      | .opaque _ => U "float-opaque"
      | _ => match toDec? v with
        | some d =>
